@@ -1,29 +1,44 @@
 // c13: crash-point enumeration for block commit / removal (property C13).
-// For the last step of each TLC-generated Node script (apply a block / delete the tip) the harness counts the
-// file-system write/sync operations of that step on a strict in-memory file system and then, for every operation
-// index k, re-runs the script from scratch, lets everything after operation k of the step be lost
-// (SetIgnoreSyncs + ResetToSyncedState), reopens the database, restarts the node and records which effects of the
-// step are durable and whether the recovery invariants hold.  spec/trace/CrashTrace.tla checks every record.
+// For the last step of each script (TLC-generated Node scripts, variants derived from them, fixed TLC-generated scripts):
+// apply a block / delete the tip (with and without temporary copy) / restore a temporary block / LIP-0014 tie break /
+// the genesis commit - the harness counts the file-system write/sync operations of that step on a strict in-memory file
+// system and then, for every operation index k, re-runs the script from scratch, crashes at operation k under one of the
+// two crash models of spec/Crash.tla
 //
-// usage: c13 <scripts.ndjson> <config.json> <out.json> <trace.ndjson> <maxScripts> <maxPointsPerStep>
+//	powerloss     everything not synced before operation k is lost (SetIgnoreSyncs + ResetToSyncedState)
+//	processdeath  everything written before operation k survives (all files and directories are synced at k, then as above)
+//
+// reopens the database, restarts the node and records which state of the clean run (before the step / between the two
+// stages of a tie break / after the step) the recovered database equals and whether the recovery invariants hold.
+// spec/trace/CrashTrace.tla checks every record.
+//
+// The comparison ignores what the statement does not name: revert diffs and event records of heights at or below the
+// finalized height stored in the SAME database (dead data: deleteBlock refuses those heights); pruning them later than,
+// or separately from, the block batch is not a violation, pruning them before the finalized height is durable is.
+//
+// usage: c13 <scripts.ndjson> <config.json> <out.json> <trace.ndjson> <maxScripts> <maxPointsPerStep> [fin]
 package main
 
 import (
 	"bufio"
 	"bytes"
+	"crypto/sha256"
 	"encoding/json"
 	"fmt"
 	"os"
+	"runtime/debug"
 	"sort"
 	"strconv"
 	"strings"
 	"sync"
 	"sync/atomic"
+	"time"
 
 	"github.com/cockroachdb/pebble/vfs"
 
 	"github.com/LiskHQ/lisk-engine/pkg/consensus/liskbft"
 	"github.com/LiskHQ/lisk-engine/pkg/db"
+	"github.com/LiskHQ/lisk-engine/pkg/db/diffdb"
 
 	"verifharness/internal/node"
 	"verifharness/internal/tj"
@@ -36,13 +51,40 @@ type Step struct {
 	SaveTemp bool   `json:"saveTemp"`
 	Ok       bool   `json:"ok"`
 	Obs      struct {
-		Fin uint32 `json:"fin"`
+		TipH uint32   `json:"tipH"`
+		Fin  uint32   `json:"fin"`
+		Temp []uint32 `json:"temp"`
 	} `json:"obs"`
 }
 
-type Dump struct {
-	Script []Step `json:"script"`
+// Line is one input line: a TLC dump ({"script": [...]}) or a fixed / replayed script with its node parameters.
+type Line struct {
+	Script   []Step `json:"script"`
+	Ke       *int   `json:"ke"`       // KeepEventsForHeights (nil: chosen by the harness)
+	Batch    int    `json:"batch"`    // BFT batch size (0: config)
+	Cache    int    `json:"cache"`    // block cache size (0: config)
+	Verbatim bool   `json:"verbatim"` // replay: the script is taken as it is, nothing is derived from it
+	Tag      string `json:"tag"`
 }
+
+type Script struct {
+	Steps  []Step
+	Ke     int
+	Batch  int
+	Cache  int
+	Origin string
+	Facets []string // static facets (from the script)
+	Both   bool     // enumerated under both crash models
+	Heavy  bool     // megabyte batches: a thinner sample of crash points
+	Dense  bool     // every operation is a crash point
+}
+
+const (
+	powerloss    = 0
+	processdeath = 1
+)
+
+var modelName = []string{"powerloss", "processdeath"}
 
 // ---- counting file system over StrictMem
 type cfs struct {
@@ -50,12 +92,44 @@ type cfs struct {
 	mem     *vfs.MemFS
 	count   int64
 	crashAt int64
+	model   int32
+	crashed int32
+	logs    int64
+}
+
+// everything handed to the file system so far survives the death of the process
+func (c *cfs) syncAll() {
+	for _, dir := range []string{"data", ""} {
+		if dir != "" {
+			if names, err := c.mem.List(dir); err == nil {
+				for _, nm := range names {
+					if f, err := c.mem.Open(c.mem.PathJoin(dir, nm)); err == nil {
+						f.Sync() //nolint
+						f.Close()
+					}
+				}
+			}
+		}
+		if d, err := c.mem.OpenDir(dir); err == nil {
+			d.Sync() //nolint
+			d.Close()
+		}
+	}
+}
+
+func (c *cfs) crash() {
+	if atomic.CompareAndSwapInt32(&c.crashed, 0, 1) {
+		if atomic.LoadInt32(&c.model) == processdeath {
+			c.syncAll()
+		}
+		c.mem.SetIgnoreSyncs(true)
+	}
 }
 
 func (c *cfs) op() {
 	n := atomic.AddInt64(&c.count, 1)
 	if at := atomic.LoadInt64(&c.crashAt); at > 0 && n == at {
-		c.mem.SetIgnoreSyncs(true)
+		c.crash()
 	}
 }
 
@@ -73,12 +147,21 @@ func (c *cfs) wrap(f vfs.File, err error) (vfs.File, error) {
 	}
 	return &cfile{File: f, fs: c}, nil
 }
-func (c *cfs) Create(name string) (vfs.File, error) { c.op(); return c.wrap(c.FS.Create(name)) }
+func (c *cfs) Create(name string) (vfs.File, error) {
+	if strings.HasSuffix(name, ".log") {
+		atomic.AddInt64(&c.logs, 1) // a new write-ahead log: the memtable was rotated
+	}
+	c.op()
+	return c.wrap(c.FS.Create(name))
+}
 func (c *cfs) Open(name string, opts ...vfs.OpenOption) (vfs.File, error) {
 	return c.wrap(c.FS.Open(name, opts...))
 }
 func (c *cfs) OpenDir(name string) (vfs.File, error) { return c.wrap(c.FS.OpenDir(name)) }
 func (c *cfs) ReuseForWrite(o, n string) (vfs.File, error) {
+	if strings.HasSuffix(n, ".log") {
+		atomic.AddInt64(&c.logs, 1)
+	}
 	c.op()
 	return c.wrap(c.FS.ReuseForWrite(o, n))
 }
@@ -103,6 +186,40 @@ func newFS() *cfs {
 	return c
 }
 
+// dumpDB: node.DumpDB (sorted "key=value" lines in hex, the entries of a state diff in canonical order) with values of more
+// than 256 bytes replaced by their length and SHA-256 (megabyte blocks are dumped thousands of times)
+func dumpDB(d *db.DB) []string {
+	res := []string{}
+	for _, kv := range d.Iterate([]byte{}, -1, false) {
+		k, v := kv.Key(), kv.Value()
+		if len(k) > 0 && k[0] == 51 {
+			// state diff: the order of its entries follows Go map iteration; compare it as a set
+			df := &diffdb.Diff{}
+			if err := df.Decode(v); err == nil {
+				parts := []string{}
+				for _, a := range df.Added {
+					parts = append(parts, fmt.Sprintf("A:%x", a))
+				}
+				for _, u := range df.Updated {
+					parts = append(parts, fmt.Sprintf("U:%x:%x", u.Key, u.Value))
+				}
+				for _, u := range df.Deleted {
+					parts = append(parts, fmt.Sprintf("D:%x:%x", u.Key, u.Value))
+				}
+				sort.Strings(parts)
+				res = append(res, fmt.Sprintf("%x=diff{%s}", k, strings.Join(parts, ",")))
+				continue
+			}
+		}
+		if len(v) > 256 {
+			res = append(res, fmt.Sprintf("%x=#%d:%x", k, len(v), sha256.Sum256(v)))
+			continue
+		}
+		res = append(res, fmt.Sprintf("%x=%x", k, v))
+	}
+	return res
+}
+
 var groups = map[string]string{"03": "block", "05": "block", "06": "block", "08": "block", "09": "block", "04": "indexes",
 	"0a": "consensus", "33": "diff", "1b": "finalized", "07": "temp"}
 
@@ -122,6 +239,89 @@ func byGroup(d []string) map[string]string {
 	return r
 }
 
+// finOf: the finalized height stored in a dump (0 when there is none)
+func finOf(d []string) uint32 {
+	for _, l := range d {
+		if strings.HasPrefix(l, "1b=") && len(l) >= 11 {
+			var h uint32
+			fmt.Sscanf(l[3:11], "%08x", &h)
+			return h
+		}
+	}
+	return 0
+}
+
+func heightOf(l string) (uint32, bool) {
+	if len(l) < 10 {
+		return 0, false
+	}
+	var h uint32
+	if _, err := fmt.Sscanf(l[2:10], "%08x", &h); err != nil {
+		return 0, false
+	}
+	return h, true
+}
+
+// tipOf: the largest height in the height index of a dump
+func tipOf(d []string) uint32 {
+	top := uint32(0)
+	for _, l := range d {
+		if strings.HasPrefix(l, "04") {
+			if h, ok := heightOf(l); ok && h > top {
+				top = h
+			}
+		}
+	}
+	return top
+}
+
+// norm is the projection the property talks about: the dump without
+//   - the revert diffs (33) of heights at or below the finalized height stored in the same dump (deleteBlock refuses those
+//     heights: the diffs are dead, whether and when they are pruned is not part of the statement), and
+//   - the event records (09) the node's own configuration says need not be kept in that state (KeepEventsForHeights = ke >= 0:
+//     heights up to min(finalized height, tip - ke), the range saveBlock prunes); with ke = -1 every event record counts.
+//
+// Pruning such data later than, or separately from, the block batch therefore is no violation; pruning it BEFORE the
+// finalized height / tip that makes it dead is durable is one (the recovered state then lacks data its own finalized
+// height still needs).
+func norm(d []string, ke int) []string {
+	fin := finOf(d)
+	deadEv := int64(-1)
+	if ke >= 0 {
+		deadEv = int64(tipOf(d)) - int64(ke)
+		if int64(fin) < deadEv {
+			deadEv = int64(fin)
+		}
+	}
+	res := make([]string, 0, len(d))
+	for _, l := range d {
+		if strings.HasPrefix(l, "33") {
+			if h, ok := heightOf(l); ok && h <= fin {
+				continue
+			}
+		}
+		if strings.HasPrefix(l, "09") {
+			if h, ok := heightOf(l); ok && int64(h) <= deadEv {
+				continue
+			}
+		}
+		res = append(res, l)
+	}
+	return res
+}
+
+func same(a, b []string) bool {
+	if len(a) != len(b) {
+		return false
+	}
+	for i := range a {
+		if a[i] != b[i] {
+			return false
+		}
+	}
+	return true
+}
+
 type Violation struct {
 	Key    string      `json:"key"`
 	What   string      `json:"what"`
@@ -131,12 +331,25 @@ type Violation struct {
 type Out struct {
 	Scripts     int            `json:"scripts"`
 	Steps       map[string]int `json:"steps_by_kind"`
+	Models      map[string]int `json:"crash_points_by_model"`
+	Origins     map[string]int `json:"scripts_by_origin"`
+	Facets      map[string]int `json:"crash_points_by_facet"`
+	FacetScr    map[string]int `json:"scripts_by_facet"`
 	CrashPoints int            `json:"crash_points"`
 	Pre         int            `json:"recovered_pre_state"`
+	Mid         int            `json:"recovered_between_stages"`
 	Post        int            `json:"recovered_post_state"`
+	Redone      int            `json:"steps_redone_after_recovery"`
+	Skipped     int            `json:"scripts_without_file_system_operations"`
+	Millis      map[string]int `json:"cpu_ms_by_origin"`
 	Distinct    int            `json:"distinct_step_shapes"`
 	Errors      []string       `json:"harness_errors"`
 	Violations  []Violation    `json:"violations"`
+}
+
+func restart(n *node.Node, cfg *node.Config, ts uint32) (*node.Node, error) {
+	n.StopExecuter()
+	return node.New(cfg, n.DB, ts)
 }
 
 func doStep(n *node.Node, s *Step) error {
@@ -148,6 +361,14 @@ func doStep(n *node.Node, s *Step) error {
 		}
 		if !bytes.Equal(n.Tip().Header.ID, b.Header.ID) {
 			return fmt.Errorf("block not accepted")
+		}
+	case "tiebreak":
+		// LIP-0014 tie break through process(): the tip is removed (no temporary copy), the competitor applied, and the old
+		// tip applied again when the competitor turns out to be invalid
+		b := n.Build(&s.Cand)
+		err := n.Ex.VerifProcess(b, "12D3KooWverifpeer")
+		if acc := bytes.Equal(n.Tip().Header.ID, b.Header.ID); acc != s.Accepted {
+			return fmt.Errorf("tie-break block accepted=%v, the script expects %v (%v)", acc, s.Accepted, err)
 		}
 	case "restore":
 		// what restoreBlocks does after a failed chain switch: the temporary block above the tip is applied again and
@@ -179,42 +400,102 @@ func doStep(n *node.Node, s *Step) error {
 	return nil
 }
 
+func (sc *Script) config(base *node.Config) *node.Config {
+	c := *base
+	ke := sc.Ke
+	c.KeepEvents = &ke
+	if sc.Batch > 0 {
+		c.Batch = sc.Batch
+	}
+	if sc.Cache > 0 {
+		c.CacheSize = sc.Cache
+	}
+	return &c
+}
+
+type result struct {
+	pre, post []string // raw dumps of the clean run
+	nops      int64
+	rec       []string // raw dump found after the crash and the restart
+	inv       []string
+	redo      bool
+	dyn       []string // facets seen in the clean run
+}
+
 // run replays prefix+last on a fresh strict file system; crashK = 0: no crash (measure), else crash at operation k of the last step
-func run(cfg *node.Config, ts uint32, prefix []Step, last *Step, crashK int64) (pre, post []string, nops int64, recovered []string, inv []string, err error) {
+func run(cfg *node.Config, ts uint32, prefix []Step, last *Step, crashK int64, model int, post []string) (*result, error) {
+	r := &result{}
+	ke := -1
+	if cfg.KeepEvents != nil {
+		ke = *cfg.KeepEvents
+	}
 	fs := newFS()
+	atomic.StoreInt32(&fs.model, int32(model))
 	d, err := db.NewDBWithFS("data", fs)
 	if err != nil {
-		return nil, nil, 0, nil, nil, err
+		return nil, err
 	}
-	n, err := node.New(cfg, d, ts)
-	if err != nil {
-		return nil, nil, 0, nil, nil, err
-	}
-	for i := range prefix {
-		if prefix[i].Op == "restart" {
-			continue
+	var n *node.Node
+	var c0 int64
+	if last.Op == "genesis" {
+		// the genesis commit (Executer.Init -> processGenesisBlock -> AddBlock) on the empty database
+		r.pre = dumpDB(d)
+		c0 = atomic.LoadInt64(&fs.count)
+		if crashK > 0 {
+			atomic.StoreInt64(&fs.crashAt, c0+crashK)
 		}
-		if e := doStep(n, &prefix[i]); e != nil {
-			return nil, nil, 0, nil, nil, fmt.Errorf("prefix step %d: %v", i, e)
+		n, err = node.New(cfg, d, ts)
+		if err != nil {
+			return nil, fmt.Errorf("genesis: %v", err)
+		}
+	} else {
+		n, err = node.New(cfg, d, ts)
+		if err != nil {
+			return nil, err
+		}
+		for i := range prefix {
+			if prefix[i].Op == "restart" {
+				if n, err = restart(n, cfg, ts); err != nil {
+					return nil, fmt.Errorf("prefix step %d (restart): %v", i, err)
+				}
+				continue
+			}
+			if e := doStep(n, &prefix[i]); e != nil {
+				return nil, fmt.Errorf("prefix step %d: %v", i, e)
+			}
+		}
+		r.pre = dumpDB(n.DB)
+		if crashK == 0 {
+			if strings.HasPrefix(last.Op, "delete") && n.Tip().Header.Height > 0 && !n.Chain.DataAccess().Cached(n.Tip().Header.Height-1) {
+				r.dyn = append(r.dyn, "remove+cache-fallback")
+			}
+			if cfg.CacheSize > 0 && int(n.Tip().Header.Height) > cfg.CacheSize {
+				r.dyn = append(r.dyn, "restart+chain-longer-than-cache")
+			}
+		}
+		c0 = atomic.LoadInt64(&fs.count)
+		l0 := atomic.LoadInt64(&fs.logs)
+		if crashK > 0 {
+			atomic.StoreInt64(&fs.crashAt, c0+crashK)
+		}
+		stepErr := doStep(n, last)
+		if crashK == 0 && stepErr != nil {
+			return nil, fmt.Errorf("last step: %v", stepErr)
+		}
+		if crashK == 0 && atomic.LoadInt64(&fs.logs) > l0 {
+			// the batch did not fit the memtable: pebble switched to a new write-ahead log inside the step (the old log is
+			// synced before the batch reaches the new one)
+			r.dyn = append(r.dyn, "step+wal-rotation")
 		}
 	}
-	pre = n.Dump()
-	c0 := atomic.LoadInt64(&fs.count)
-	if crashK > 0 {
-		atomic.StoreInt64(&fs.crashAt, c0+crashK)
-	}
-	stepErr := doStep(n, last)
-	nops = atomic.LoadInt64(&fs.count) - c0
+	r.nops = atomic.LoadInt64(&fs.count) - c0
 	if crashK == 0 {
-		if stepErr != nil {
-			return nil, nil, 0, nil, nil, fmt.Errorf("last step: %v", stepErr)
-		}
-		post = n.Dump()
+		r.post = dumpDB(n.DB)
 		n.Close()
-		return pre, post, nops, nil, nil, nil
+		return r, nil
 	}
-	// crash: everything after operation k is lost
-	fs.mem.SetIgnoreSyncs(true)
+	// crash (at the latest now, after the step returned): what the crash model does not keep is lost
+	fs.crash()
 	n.StopExecuter()
 	d.Close()
 	fs.mem.ResetToSyncedState()
@@ -222,24 +503,36 @@ func run(cfg *node.Config, ts uint32, prefix []Step, last *Step, crashK int64) (
 	atomic.StoreInt64(&fs.crashAt, 0)
 	d2, err := db.NewDBWithFS("data", fs)
 	if err != nil {
-		return pre, nil, nops, nil, []string{"database-does-not-reopen: " + err.Error()}, nil
+		r.inv = []string{"database-does-not-reopen: " + err.Error()}
+		return r, nil
 	}
 	defer d2.Close()
 	n2, err := node.New(cfg, d2, ts)
 	if err != nil {
-		return pre, nil, nops, nil, []string{"node-does-not-restart: " + err.Error()}, nil
+		r.inv = []string{"node-does-not-restart: " + err.Error()}
+		return r, nil
 	}
 	defer n2.StopExecuter()
-	recovered = n2.Dump()
+	r.rec = dumpDB(n2.DB)
 	func() {
 		defer func() {
 			if e := recover(); e != nil {
-				inv = []string{fmt.Sprintf("restarted-node-unusable: %v", e)}
+				r.inv = []string{fmt.Sprintf("restarted-node-unusable: %v", e)}
 			}
 		}()
-		inv = invariants(n2)
+		r.inv = invariants(n2)
+		// the node that restarted on the state before the step can perform the step (Crash.tla Redo); a tie break cannot be
+		// repeated: the restarted node has no receive time for its tip
+		if len(r.inv) == 0 && post != nil && same(norm(r.rec, ke), norm(r.pre, ke)) && (last.Op == "block" || last.Op == "delete" || last.Op == "restore") {
+			r.redo = true
+			if e := doStep(n2, last); e != nil {
+				r.inv = append(r.inv, "restarted-node-cannot-redo-step: "+e.Error())
+			} else if !same(norm(dumpDB(n2.DB), ke), norm(post, ke)) {
+				r.inv = append(r.inv, "restarted-node-cannot-redo-step: the step performed after the restart does not reach the state of the uninterrupted step")
+			}
+		}
 	}()
-	return pre, nil, nops, recovered, inv, nil
+	return r, nil
 }
 
 // recovery invariants of C13 on the restarted node
@@ -265,28 +558,32 @@ func invariants(n *node.Node) []string {
 		v, err := liskbft.VerifDumpVotes(n.Ex.VerifConsensusStore())
 		if err != nil || len(v.Infos) == 0 {
 			res = append(res, "consensus-store-unreadable")
-		} else if v.Infos[0].Height != tip {
-			res = append(res, fmt.Sprintf("consensus-store-at-%d-tip-at-%d", v.Infos[0].Height, tip))
+		} else {
+			// the newest block the consensus store knows (wherever it keeps it in its window)
+			top := uint32(0)
+			for _, in := range v.Infos {
+				if in.Height > top {
+					top = in.Height
+				}
+			}
+			if top != tip {
+				res = append(res, fmt.Sprintf("consensus-store-at-%d-tip-at-%d", top, tip))
+			}
 		}
 	}
-	for _, l := range n.Dump() {
+	dump := dumpDB(n.DB)
+	have := map[uint32]bool{}
+	for _, l := range dump {
 		if strings.HasPrefix(l, "33") {
-			var h uint32
-			fmt.Sscanf(l[2:10], "%08x", &h)
-			if h > tip {
-				res = append(res, fmt.Sprintf("diff-without-block:%d", h))
+			if h, ok := heightOf(l); ok {
+				have[h] = true
+				if h > tip {
+					res = append(res, fmt.Sprintf("diff-without-block:%d", h))
+				}
 			}
 		}
 	}
 	// every block above the finalized height can still be removed (its diff exists)
-	have := map[uint32]bool{}
-	for _, l := range n.Dump() {
-		if strings.HasPrefix(l, "33") {
-			var h uint32
-			fmt.Sscanf(l[2:10], "%08x", &h)
-			have[h] = true
-		}
-	}
 	for h := fin + 1; h <= tip; h++ {
 		if !have[h] {
 			res = append(res, fmt.Sprintf("block-without-diff:%d", h))
@@ -295,11 +592,146 @@ func invariants(n *node.Node) []string {
 	return res
 }
 
+// ---- script analysis
+
+func effective(s *Step) bool {
+	switch s.Op {
+	case "block":
+		return s.Accepted
+	case "delete":
+		return s.Ok
+	case "tiebreak":
+		// the competitor replaces the tip, or is invalid in a way only its execution shows: the tip is removed and put back
+		return s.Accepted || s.Mut == "tiebreak-sig-wrongkey" || s.Mut == "tiebreak-stateroot"
+	}
+	return false
+}
+
+func kindOf(last *Step) string {
+	switch {
+	case last.Op == "delete" && last.SaveTemp:
+		return "delete+temp"
+	case last.Op == "tiebreak" && !last.Accepted:
+		return "tiebreak-bad"
+	}
+	return last.Op
+}
+
+// analyse returns the static facets of the last step and the shape key used to drop equal-looking scripts
+func analyse(s []Step) ([]string, string) {
+	last := &s[len(s)-1]
+	// the blocks of the chain before the last step (index into s), the finalized height and the temporary blocks before it
+	stackAt := func(n int) []int {
+		stack := []int{}
+		for i := 0; i < n; i++ {
+			switch {
+			case s[i].Op == "block" && s[i].Accepted:
+				stack = append(stack, i)
+			case s[i].Op == "delete" && s[i].Ok && len(stack) > 0:
+				stack = stack[:len(stack)-1]
+			case s[i].Op == "tiebreak" && s[i].Accepted && len(stack) > 0:
+				stack[len(stack)-1] = i
+			}
+		}
+		return stack
+	}
+	stack := stackAt(len(s) - 1)
+	finBefore, tempBefore, restarted := uint32(0), 0, false
+	if len(s) > 1 {
+		finBefore, tempBefore = s[len(s)-2].Obs.Fin, len(s[len(s)-2].Obs.Temp)
+	}
+	chgBefore := 0
+	for _, i := range stack {
+		if s[i].Chg > 0 {
+			chgBefore++
+		}
+	}
+	for i := 0; i < len(s)-1; i++ {
+		if s[i].Op == "restart" {
+			restarted = true
+		}
+	}
+	f := []string{}
+	kind := kindOf(last)
+	applied := func(p string, b *Step) {
+		if b.Chg > 0 {
+			f = append(f, p+"+chg-block")
+		}
+		if b.Ntx > 0 {
+			f = append(f, p+"+tx-block")
+		}
+		if b.Ntx >= 3 && b.Payload != "big" {
+			f = append(f, p+"+multi-tx-block")
+		}
+		if b.Payload == "big" {
+			f = append(f, p+"+megabyte-block")
+		}
+		if b.Ac.Kind == "valid" {
+			f = append(f, p+"+valid-ac-block")
+		}
+	}
+	removed := ""
+	switch last.Op {
+	case "block":
+		applied("apply", last)
+		if last.Obs.Fin > finBefore {
+			f = append(f, "apply+fin-raise")
+		}
+		if last.Obs.Fin > finBefore+1 {
+			f = append(f, "apply+fin-jump")
+		}
+		if tempBefore > 0 {
+			f = append(f, "apply+temp-present")
+		}
+		if chgBefore > 0 {
+			f = append(f, "apply+after-chg")
+		}
+	case "delete", "tiebreak":
+		p := "remove"
+		if last.Op == "tiebreak" {
+			p = kind
+		}
+		if len(stack) > 0 {
+			b := &s[stack[len(stack)-1]]
+			applied(p, b)
+			removed = fmt.Sprintf("%d/%d/%s/%s", b.Chg, b.Ntx, b.Ac.Kind, b.Payload)
+			// did the removed block raise the finalized height when it was applied?
+			i := stack[len(stack)-1]
+			if (i == 0 && b.Obs.Fin > 0) || (i > 0 && b.Obs.Fin > s[i-1].Obs.Fin) {
+				f = append(f, p+"+fin-raising-block")
+				removed += "/finraise"
+			}
+		}
+		if tempBefore > 0 {
+			f = append(f, p+"+temp-present")
+		}
+		if last.Op == "tiebreak" && last.Obs.Fin > finBefore {
+			f = append(f, kind+"+fin-raise")
+		}
+	case "restore":
+		// the restored block is the one the delete+temp step before it removed
+		if st := stackAt(len(s) - 2); len(s) >= 2 && len(st) > 0 {
+			applied("restore", &s[st[len(st)-1]])
+		}
+	}
+	if restarted {
+		f = append(f, "after-restart")
+	}
+	shape := fmt.Sprintf("%s/%d/%s/%d/%d/%v/len%d/fin%d/rm%s/t%d/c%d/%s", last.Op, last.Chg, last.Ac.Kind, last.Ntx, last.H, last.SaveTemp, len(s), last.Obs.Fin,
+		removed, tj.B(tempBefore > 0), chgBefore, last.Mut)
+	return f, shape
+}
+
+func cloneSteps(s []Step, extra ...Step) []Step {
+	return append(append([]Step{}, s...), extra...)
+}
+
 func main() {
 	if len(os.Args) < 7 {
-		fmt.Fprintln(os.Stderr, "usage: c13 scripts.ndjson config.json out.json trace.ndjson maxScripts maxPoints")
+		fmt.Fprintln(os.Stderr, "usage: c13 scripts.ndjson config.json out.json trace.ndjson maxScripts maxPoints [fin]")
 		os.Exit(2)
 	}
+	debug.SetGCPercent(400) // thousands of short-lived databases: collect less often
 	cfg := &node.Config{}
 	cb, err := os.ReadFile(os.Args[2])
 	if err == nil {
@@ -309,23 +741,43 @@ func main() {
 		panic(err)
 	}
 	cfg.Network = false
+	if cfg.MaxTxs == 0 {
+		cfg.MaxTxs = 15 * 1024
+	}
 	maxScripts, _ := strconv.Atoi(os.Args[5])
 	maxPoints, _ := strconv.Atoi(os.Args[6])
 	finOnly := len(os.Args) > 7 && os.Args[7] == "fin"
+	seed := tj.EnvInt("VERIF_SEED", 1)
+	maxFixed, maxBig := 6, 1 // last steps taken from the tail of a fixed script; plain megabyte blocks
+	if os.Getenv("VERIF_TIER") == "thorough" {
+		maxFixed, maxBig = 12, 3
+	}
 	f, err := os.Open(os.Args[1])
 	if err != nil {
 		panic(err)
 	}
 	sc := bufio.NewScanner(f)
 	sc.Buffer(make([]byte, 1<<20), 1<<26)
-	var scripts [][]Step
+	var cands, fixed []*Script
 	shapes := map[string]bool{}
+	perTag := map[string]int{}
+	verbatim := false
 	for sc.Scan() {
-		d := &Dump{}
+		d := &Line{}
 		if json.Unmarshal(sc.Bytes(), d) != nil || len(d.Script) == 0 {
 			continue
 		}
-		// cut the script after its last block/delete step that took effect
+		if d.Verbatim {
+			// replay of a recorded violation: exactly this script, every crash point, both crash models
+			ke := -1
+			if d.Ke != nil {
+				ke = *d.Ke
+			}
+			verbatim = true
+			fa, _ := analyse(d.Script)
+			fixed = append(fixed, &Script{Steps: d.Script, Ke: ke, Batch: d.Batch, Cache: d.Cache, Origin: "replay", Both: true, Facets: fa})
+			continue
+		}
 		s := d.Script
 		if finOnly {
 			// C04: cut after the last applied block that raises the finalized height
@@ -333,42 +785,199 @@ func main() {
 				s = s[:len(s)-1]
 			}
 		}
-		for len(s) > 0 && !((s[len(s)-1].Op == "block" && s[len(s)-1].Accepted) || (s[len(s)-1].Op == "delete" && s[len(s)-1].Ok)) {
+		// cut the script after its last step that took effect; a tie break is a last step of its own, and the script
+		// before it is looked at as well
+		for {
+			for len(s) > 0 && !(effective(&s[len(s)-1]) && !(finOnly && s[len(s)-1].Op == "tiebreak")) {
+				s = s[:len(s)-1]
+			}
+			if len(s) == 0 {
+				break
+			}
+			fa, shape := analyse(s)
+			if d.Tag != "" {
+				shape = d.Tag + "/" + shape
+			}
+			if !shapes[shape] {
+				shapes[shape] = true
+				c := &Script{Steps: s, Ke: -1, Batch: d.Batch, Cache: d.Cache, Origin: "tlc", Facets: fa}
+				if d.Tag != "" {
+					// a fixed TLC-generated script with its own node parameters (long chain, small block cache): always taken,
+					// with every effective step of its tail as a last step
+					c.Origin = "fixed:" + d.Tag
+					c.Both = true
+					if d.Ke != nil {
+						c.Ke = *d.Ke
+					}
+					fixed = append(fixed, c)
+					perTag[d.Tag]++
+				} else {
+					cands = append(cands, c)
+				}
+			}
+			if s[len(s)-1].Op != "tiebreak" && d.Tag == "" {
+				break
+			}
+			if d.Tag != "" && perTag[d.Tag] >= maxFixed {
+				break
+			}
 			s = s[:len(s)-1]
 		}
-		if len(s) == 0 {
-			continue
-		}
-		last := s[len(s)-1]
-		shape := fmt.Sprintf("%s/%d/%s/%d/%d/%v/len%d/fin%d", last.Op, last.Chg, last.Ac.Kind, last.Ntx, last.H, last.SaveTemp, len(s), last.Obs.Fin)
-		if shapes[shape] {
-			continue
-		}
-		shapes[shape] = true
-		scripts = append(scripts, s)
-		if last.Op == "delete" && last.SaveTemp {
-			// the same history followed by the restoration of the removed block from its temporary copy
-			scripts = append(scripts, append(append([]Step{}, s...), Step{Op: "restore"}))
-		}
-		if len(scripts) >= maxScripts {
-			break
-		}
 	}
-	// a block whose write batch is megabytes large (160 transactions of 14 kB): the whole of it is still one atomic step
-	if !finOnly {
-		nbig := 0
-		for _, sc0 := range scripts {
-			last := sc0[len(sc0)-1]
-			if last.Op == "block" && last.Accepted && last.Ntx >= 0 && last.Chg == 0 && nbig < 2 {
-				big := append([]Step{}, sc0...)
-				big[len(big)-1].Ntx = 160
-				big[len(big)-1].Payload = "big"
-				scripts = append(scripts, big)
-				nbig++
+	// ---- selection: representatives of every facet first (so that no facet depends on where the cap falls), then file order
+	var scripts, fatBases []*Script
+	if !verbatim {
+		taken := map[*Script]bool{}
+		perFacet := map[string]int{}
+		if !finOnly {
+			for _, c := range cands {
+				want := false
+				for _, fa := range c.Facets {
+					if perFacet[fa] < 3 {
+						want = true
+					}
+				}
+				if want && len(scripts) < maxScripts {
+					for _, fa := range c.Facets {
+						perFacet[fa]++
+					}
+					c.Both = true
+					taken[c] = true
+					scripts = append(scripts, c)
+				}
+			}
+		}
+		for _, c := range cands {
+			if !taken[c] && len(scripts) < maxScripts {
+				scripts = append(scripts, c)
+			}
+		}
+		// event pruning (saveBlock with keepEventsForHeights >= 0) for half of the scripts, the second crash model for a
+		// quarter of those that represent no facet
+		if !finOnly {
+			for i, c := range scripts {
+				if (i+seed)%2 == 1 {
+					c.Ke = ((i + seed) / 2) % 3
+				}
+				if (i+seed)%4 == 0 {
+					c.Both = true
+				}
 			}
 		}
 	}
-	out := &Out{Scripts: len(scripts), Steps: map[string]int{}, Distinct: len(shapes)}
+	has := func(c *Script, fa string) bool {
+		for _, x := range c.Facets {
+			if x == fa {
+				return true
+			}
+		}
+		return false
+	}
+	derive := func(base *Script, origin string, ke int, both bool, extra ...Step) *Script {
+		st := cloneSteps(base.Steps, extra...)
+		fa, _ := analyse(st)
+		c := &Script{Steps: st, Ke: ke, Batch: base.Batch, Cache: base.Cache, Origin: "derived:" + origin, Facets: fa, Both: both}
+		scripts = append(scripts, c)
+		return c
+	}
+	del, delTemp, restore := Step{Op: "delete", Ok: true}, Step{Op: "delete", Ok: true, SaveTemp: true}, Step{Op: "restore"}
+	if !verbatim {
+		scripts = append(scripts, fixed...)
+		fixed = nil
+		n0 := len(scripts)
+		// the restoration of a block removed with a temporary copy (as today: for every such script)
+		for _, c := range scripts[:n0] {
+			if kindOf(&c.Steps[len(c.Steps)-1]) == "delete+temp" {
+				derive(c, "restore", c.Ke, c.Both, restore)
+			}
+		}
+	}
+	if !verbatim && !finOnly {
+		n0 := len(scripts)
+		removals := func(c *Script, ke int) {
+			derive(c, "removal", ke, true, del)
+			derive(c, "removal", ke, true, delTemp)
+			derive(c, "removal", ke, true, delTemp, restore)
+		}
+		nbig, nmulti, nchg, nac, nfin, nke := 0, 0, 0, 0, 0, 0
+		for _, c := range scripts[:n0] {
+			last := c.Steps[len(c.Steps)-1]
+			if !(last.Op == "block" && last.Accepted) {
+				continue
+			}
+			if last.Chg == 0 && nbig < maxBig {
+				// a block whose write batch is megabytes large (160 transactions of 14 kB): the whole of it is still one atomic
+				// step - and so are its removal (160 deletions), the removal with a temporary copy of 2 MB and its restoration
+				big := derive(c, "megabyte-block", c.Ke, nbig == 0)
+				big.Steps[len(big.Steps)-1].Ntx = 160
+				big.Steps[len(big.Steps)-1].Payload = "big"
+				big.Facets, _ = analyse(big.Steps)
+				big.Heavy = true
+				if nbig == 0 {
+					m := len(scripts)
+					removals(big, c.Ke)
+					for _, x := range scripts[m:] {
+						x.Heavy = true
+					}
+				}
+				nbig++
+			} else if last.Chg == 0 && last.Ac.Kind == "empty" && nmulti < 3 {
+				// an ordinary block with 3-5 transactions, and its removal
+				multi := derive(c, "multi-tx-block", c.Ke, true)
+				multi.Steps[len(multi.Steps)-1].Ntx = 3 + nmulti
+				multi.Facets, _ = analyse(multi.Steps)
+				if nmulti == 0 {
+					removals(multi, c.Ke)
+				}
+				nmulti++
+			}
+			if last.Chg > 0 && nchg < 1 {
+				removals(c, c.Ke)
+				nchg++
+			}
+			if last.Ac.Kind == "valid" && nac < 1 {
+				removals(c, c.Ke)
+				nac++
+			}
+			if has(c, "apply+fin-raise") && nfin < 1 {
+				removals(c, c.Ke)
+				nfin++
+			}
+			// finality-raising blocks prune event records when events are kept for few heights only
+			if has(c, "apply+fin-raise") && c.Ke != 0 && nke < 8 && (nke < 4 || has(c, "apply+fin-jump")) {
+				derive(c, "keep-events-0", 0, true)
+				nke++
+			}
+		}
+		// blocks that RAISE THE FINALIZED HEIGHT on a node that prunes event records (KeepEventsForHeights 0 and 1):
+		// (i) megabyte blocks (one large batch, written to the current log before the memtable is switched);
+		// (ii) chains of 60-220 kB blocks, see fatChains below
+		nmf := 0
+		for _, c := range scripts[:n0] {
+			last := c.Steps[len(c.Steps)-1]
+			// (simulated scripts first - their prefixes are short; the long chain's finality-raising tips otherwise)
+			if last.Op == "block" && last.Accepted && has(c, "apply+fin-raise") && last.Payload != "big" {
+				if nmf < 2 {
+					x := derive(c, "megabyte-finality-block", nmf%2, true)
+					x.Steps[len(x.Steps)-1].Ntx = 160
+					x.Steps[len(x.Steps)-1].Payload = "big"
+					x.Facets, _ = analyse(x.Steps)
+					x.Facets = append(x.Facets, "apply+megabyte-fin-raise-events-pruned")
+					x.Heavy = true
+					nmf++
+				}
+				if len(fatBases) < 3 {
+					fatBases = append(fatBases, c)
+				}
+			}
+		}
+		// the genesis commit
+		scripts = append(scripts, &Script{Steps: []Step{{Op: "genesis"}}, Ke: -1, Origin: "genesis", Facets: []string{"genesis"}, Both: true})
+	}
+	scripts = append(scripts, fixed...)
+
+	out := &Out{Scripts: len(scripts), Steps: map[string]int{}, Models: map[string]int{}, Origins: map[string]int{}, Facets: map[string]int{},
+		FacetScr: map[string]int{}, Distinct: len(shapes), Millis: map[string]int{}}
 	w, err := tj.NewWriter(os.Args[4])
 	if err != nil {
 		panic(err)
@@ -381,11 +990,74 @@ func main() {
 			out.Violations = append(out.Violations, Violation{key, what, replay})
 		}
 	}
+	fail := func(msg string) {
+		mu.Lock()
+		out.Errors = append(out.Errors, msg)
+		mu.Unlock()
+	}
 	ts := uint32(1700000000)
 	// real time must lie in slot cfg.Now: derive the genesis timestamp once, all runs share it (same block ids)
 	if n0, err := node.New(cfg, nil, 0); err == nil {
 		ts = n0.GenesisTS
 		n0.Close()
+	}
+	// (ii) fat chains: every block of the script carries 4-16 transactions of 14 kB.  Such a batch is an ordinary one, and
+	// when it does not fit what is left of the memtable pebble switches to a new write-ahead log INSIDE the commit: the old
+	// log is closed and synced first - whatever was written to it unsynced just before the batch is then durable without
+	// the batch.  Which block meets the end of a memtable depends on the sizes: the payload is varied until the switch
+	// falls into the finality-raising last step (seen in the clean run), two variants per base script, every file-system
+	// operation of the step a crash point under both crash models.
+	{
+		var fwg sync.WaitGroup
+		found := make([][]*Script, len(fatBases))
+		for bi, base := range fatBases {
+			bi, base := bi, base
+			fwg.Add(1)
+			go func() {
+				defer fwg.Done()
+				defer func() { recover() }() //nolint
+				for try := 0; try < 39; try++ {
+					// the blocks of the prefix carry ntx transactions, the last one a few more (the less is left of the
+					// memtable the prefix filled, the sooner it does not fit)
+					ntx := []int{10, 6, 14, 8, 12, 5, 16, 7, 9, 11, 13, 4, 15}[try%13]
+					lastNtx := ntx + []int{0, 6, 3}[try/13]
+					if lastNtx > 20 {
+						lastNtx = 20
+					}
+					if len(found[bi]) >= 2 {
+						break
+					}
+					st := cloneSteps(base.Steps)
+					for i := range st {
+						if st[i].Op == "block" {
+							st[i].Ntx, st[i].Payload = ntx, "big"
+						}
+					}
+					st[len(st)-1].Ntx = lastNtx
+					x := &Script{Steps: st, Ke: (bi + len(found[bi])) % 2, Batch: base.Batch, Cache: base.Cache, Origin: "derived:fat-chain", Both: true, Heavy: true, Dense: true}
+					clean, err := run(x.config(cfg), ts, st[:len(st)-1], &st[len(st)-1], 0, powerloss, nil)
+					if os.Getenv("C13_DEBUG") != "" {
+						fmt.Fprintf(os.Stderr, "fat-chain base %d ntx %d/%d: err=%v rotation=%v\n", bi, ntx, lastNtx, err, clean != nil && contains(clean.dyn, "step+wal-rotation"))
+					}
+					if err == nil && contains(clean.dyn, "step+wal-rotation") {
+						x.Facets, _ = analyse(st)
+						x.Facets = append(x.Facets, "apply+fat-chain-fin-raise-events-pruned+wal-rotation")
+						found[bi] = append(found[bi], x)
+					}
+				}
+			}()
+		}
+		fwg.Wait()
+		nfat := 0
+		for _, f := range found {
+			for _, x := range f {
+				if nfat < 4 {
+					scripts = append(scripts, x)
+					nfat++
+				}
+			}
+		}
+		out.Scripts = len(scripts)
 	}
 	var wg sync.WaitGroup
 	sem := make(chan struct{}, 12)
@@ -398,94 +1070,255 @@ func main() {
 			defer func() { <-sem }()
 			defer func() {
 				if e := recover(); e != nil {
-					mu.Lock()
-					out.Errors = append(out.Errors, fmt.Sprintf("script %d: %v", si, e))
-					mu.Unlock()
+					fail(fmt.Sprintf("script %d: %v", si, e))
 				}
 			}()
-			prefix, last := s[:len(s)-1], &s[len(s)-1]
-			pre, post, nops, _, _, err := run(cfg, ts, prefix, last, 0)
-			if err != nil {
+			t0 := time.Now()
+			defer func() {
 				mu.Lock()
-				out.Errors = append(out.Errors, fmt.Sprintf("script %d: %v", si, err))
+				o := s.Origin
+				if s.Heavy {
+					o += "(megabyte)"
+				}
+				out.Millis[o] += int(time.Since(t0).Milliseconds())
+				mu.Unlock()
+			}()
+			scfg := s.config(cfg)
+			prefix, last := s.Steps[:len(s.Steps)-1], &s.Steps[len(s.Steps)-1]
+			kind := kindOf(last)
+			clean, err := run(scfg, ts, prefix, last, 0, powerloss, nil)
+			if err != nil {
+				fail(fmt.Sprintf("script %d (%s): %v", si, s.Origin, err))
+				return
+			}
+			nops := clean.nops
+			if nops == 0 {
+				// the step never reached the file system (e.g. a tie-break candidate refused before the tip is touched)
+				mu.Lock()
+				out.Skipped++
 				mu.Unlock()
 				return
 			}
-			gpre, gpost := byGroup(pre), byGroup(post)
+			// the states of the clean run a crash may leave: before the step, [between the stages of a tie break], after it
+			stages := [][]string{norm(clean.pre, s.Ke), norm(clean.post, s.Ke)}
+			if last.Op == "tiebreak" {
+				d0 := del
+				mid, err := run(scfg, ts, prefix, &d0, 0, powerloss, nil)
+				if err != nil {
+					fail(fmt.Sprintf("script %d (%s): removal of the tip alone: %v", si, s.Origin, err))
+					return
+				}
+				stages = [][]string{norm(clean.pre, s.Ke), norm(mid.post, s.Ke), norm(clean.post, s.Ke)}
+			}
+			gst := make([]map[string]string, len(stages))
+			allg := map[string]bool{}
+			for i, st := range stages {
+				gst[i] = byGroup(st)
+				for g := range gst[i] {
+					allg[g] = true
+				}
+			}
+			gpre, gpost := gst[0], gst[len(gst)-1]
 			effects := []string{}
-			for g := range gpost {
+			for g := range allg {
 				if gpre[g] != gpost[g] {
 					effects = append(effects, g)
 				}
 			}
-			for g := range gpre {
-				if _, ok := gpost[g]; !ok {
-					effects = append(effects, g)
-				}
-			}
 			sort.Strings(effects)
-			ks := []int64{}
-			if int(nops) <= maxPoints {
-				// nops+1: the crash happens right after the step returned
-				for k := int64(1); k <= nops+1; k++ {
-					ks = append(ks, k)
-				}
-			} else {
-				for i := 0; i < maxPoints; i++ {
-					ks = append(ks, 1+int64(i)*nops/int64(maxPoints))
-				}
+			// facets the clean run shows
+			facets := append(append([]string{}, s.Facets...), clean.dyn...)
+			if s.Ke >= 0 {
+				facets = append(facets, "events-pruned-by-config")
 			}
-			kind := last.Op
-			if last.Op == "delete" && last.SaveTemp {
-				kind = "delete+temp"
-			}
-			for _, k := range ks {
-				_, _, _, rec, inv, err := run(cfg, ts, prefix, last, k)
-				if err != nil {
-					mu.Lock()
-					out.Errors = append(out.Errors, fmt.Sprintf("script %d k=%d: %v", si, k, err))
-					mu.Unlock()
-					return
+			if last.Op == "block" || last.Op == "restore" || last.Op == "tiebreak" {
+				finPre := finOf(clean.pre)
+				inPost := map[string]bool{}
+				for _, l := range clean.post {
+					inPost[l[:strings.Index(l, "=")]] = true
 				}
-				durable := []string{}
-				if rec != nil {
-					grec := byGroup(rec)
-					for _, g := range effects {
-						switch {
-						case grec[g] == gpost[g]:
-							durable = append(durable, g)
-						case grec[g] == gpre[g]:
-						default:
-							inv = append(inv, "key-space-neither-pre-nor-post:"+g)
+				seen := map[string]bool{}
+				for _, l := range clean.pre {
+					if (strings.HasPrefix(l, "33") || strings.HasPrefix(l, "09")) && !inPost[l[:strings.Index(l, "=")]] {
+						h, _ := heightOf(l)
+						if last.Op == "tiebreak" && h == tipOf(clean.pre) {
+							continue // the removed tip's own records
+						}
+						what := map[string]string{"33": "diffs", "09": "events"}[l[:2]]
+						seen["apply+prunes-"+what] = true
+						if h > finPre {
+							seen["apply+prunes-live-"+what] = true
 						}
 					}
 				}
-				if inv == nil {
-					inv = []string{}
+				for fa := range seen {
+					facets = append(facets, fa)
 				}
-				mu.Lock()
-				out.CrashPoints++
-				out.Steps[kind]++
-				if len(durable) == 0 {
-					out.Pre++
-				} else if len(durable) == len(effects) {
-					out.Post++
-				}
-				w.Emit(map[string]interface{}{"kind": kind, "k": k, "n": nops, "effects": effects, "durable": durable, "inv": inv, "script": si})
-				if len(inv) > 0 {
-					key := inv[0]
-					if i := strings.Index(key, ":"); i > 0 {
-						key = key[:i]
-					}
-					viol("recovery:"+kind+":"+key, fmt.Sprintf("after a crash at file-system operation %d/%d of %s the restarted node violates: %v", k, nops, kind, inv), map[string]interface{}{"script": s, "k": k})
-				} else if len(durable) != 0 && len(durable) != len(effects) {
-					viol("partial-step:"+kind, fmt.Sprintf("after a crash at file-system operation %d/%d of %s only %v of the step's effects %v are durable", k, nops, kind, durable, effects), map[string]interface{}{"script": s, "k": k})
-				}
-				mu.Unlock()
 			}
+			for _, d := range [][]string{clean.pre, clean.post} {
+				for _, l := range d {
+					if strings.HasPrefix(l, "33") && strings.Contains(l, "D:") {
+						if h, _ := heightOf(l); h > 0 && !contains(facets, "diff-with-deleted-consensus-keys") {
+							facets = append(facets, "diff-with-deleted-consensus-keys")
+						}
+					}
+				}
+			}
+			if len(byGroup(clean.pre)["temp"]) > 0 && !contains(facets, kindPrefix(last)+"+temp-present") {
+				facets = append(facets, kindPrefix(last)+"+temp-present")
+			}
+			models := []int{powerloss}
+			if s.Both {
+				models = append(models, processdeath)
+			}
+			for _, model := range models {
+				// megabyte batches have a hundred operations and each run copies megabytes: a thinner sample (the thorough tier
+				// passes a larger maxPoints)
+				mp := maxPoints
+				if s.Heavy {
+					mp = maxPoints * 4 / 10
+					if model == processdeath {
+						mp = maxPoints * 2 / 10
+					}
+				}
+				if s.Dense {
+					mp = int(nops) + 1
+				}
+				redone := false
+				ks := []int64{}
+				if int(nops) <= mp {
+					// nops+1: the crash happens right after the step returned
+					for k := int64(1); k <= nops+1; k++ {
+						ks = append(ks, k)
+					}
+				} else {
+					// a sample that always contains the last operation and the point right after the step
+					for i := 0; i < mp-2; i++ {
+						ks = append(ks, 1+int64(i)*(nops-1)/int64(mp-2))
+					}
+					ks = append(ks, nops, nops+1)
+				}
+				for _, k := range ks {
+					// the step is performed again once per script and crash model: on the first crash point that recovers the
+					// state before the step (later ones recover the same database)
+					var redoPost []string
+					if !redone {
+						redoPost = clean.post
+					}
+					r, err := run(scfg, ts, prefix, last, k, model, redoPost)
+					if err != nil {
+						fail(fmt.Sprintf("script %d (%s) k=%d: %v", si, s.Origin, k, err))
+						return
+					}
+					inv := r.inv
+					durable := []string{}
+					state := -1
+					if r.rec != nil {
+						rec := norm(r.rec, s.Ke)
+						for i := range stages {
+							if same(rec, stages[i]) {
+								state = i
+								break
+							}
+						}
+						grec := byGroup(rec)
+						gs := map[string]bool{}
+						for g := range allg {
+							gs[g] = true
+						}
+						for g := range grec {
+							gs[g] = true
+						}
+						names := []string{}
+						for g := range gs {
+							names = append(names, g)
+						}
+						sort.Strings(names)
+						for _, g := range names {
+							known := false
+							for i := range gst {
+								if grec[g] == gst[i][g] {
+									known = true
+								}
+							}
+							if !known {
+								// also a key space the step does not touch at all, or one that exists only in between
+								inv = append(inv, "key-space-neither-pre-nor-post:"+g)
+							} else if gpre[g] != gpost[g] && grec[g] == gpost[g] {
+								durable = append(durable, g)
+							}
+						}
+						if last.Op == "genesis" && state != len(stages)-1 {
+							inv = append(inv, "genesis-not-complete-after-restart")
+						}
+					}
+					if inv == nil {
+						inv = []string{}
+					}
+					replay := map[string]interface{}{"script": s.Steps, "k": k, "model": modelName[model], "ke": s.Ke, "batch": s.Batch, "cache": s.Cache}
+					mu.Lock()
+					out.CrashPoints++
+					out.Steps[kind]++
+					out.Models[modelName[model]]++
+					for _, fa := range facets {
+						out.Facets[fa]++
+					}
+					if r.redo {
+						redone = true
+						out.Redone++
+					}
+					switch {
+					case state == 0:
+						out.Pre++
+					case state == len(stages)-1:
+						out.Post++
+					case state > 0:
+						out.Mid++
+					}
+					w.Emit(map[string]interface{}{"kind": kind, "model": modelName[model], "k": k, "n": nops, "stages": len(stages) - 1, "state": state,
+						"effects": effects, "durable": durable, "inv": inv, "script": si, "origin": s.Origin, "ke": s.Ke})
+					if len(inv) > 0 {
+						key := inv[0]
+						if i := strings.Index(key, ":"); i > 0 {
+							key = key[:i]
+						}
+						viol("recovery:"+kind+":"+key, fmt.Sprintf("after a crash (%s) at file-system operation %d/%d of %s the restarted node violates: %v", modelName[model], k, nops, kind, inv), replay)
+					} else if state < 0 {
+						viol("partial-step:"+kind, fmt.Sprintf("after a crash (%s) at file-system operation %d/%d of %s only %v of the step's effects %v are durable", modelName[model], k, nops, kind, durable, effects), replay)
+					}
+					mu.Unlock()
+				}
+			}
+			mu.Lock()
+			out.Origins[strings.SplitN(s.Origin, ":", 2)[0]]++
+			for _, fa := range facets {
+				out.FacetScr[fa]++
+			}
+			mu.Unlock()
 		}()
 	}
 	wg.Wait()
 	w.Close()
 	tj.WriteJSON(os.Args[3], out)
+}
+
+func contains(l []string, x string) bool {
+	for _, y := range l {
+		if y == x {
+			return true
+		}
+	}
+	return false
+}
+
+func kindPrefix(last *Step) string {
+	switch last.Op {
+	case "block":
+		return "apply"
+	case "delete":
+		return "remove"
+	case "tiebreak":
+		return kindOf(last)
+	}
+	return last.Op
 }
